@@ -61,7 +61,7 @@ def gen_history(rng, n_steps: int, allow: set):
     weights = {
         "edit_body": 10, "edit_body_middle": 4, "edit_bullet": 6, "change_kind": 5, "change_priority": 5, "add_note": 6, "add_note_zid": 3,
         "delete_note": 4, "retitle_section": 3, "edit_header": 3, "move_note": 4, "add_page": 3, "delete_page": 3, "rename_page": 2,
-        "advance_day": 6, "reindex": 12, "reindex_paths": 4,
+        "advance_day": 6, "reindex": 12, "reindex_paths": 4, "break_page": 3, "repair_page": 4,
     }
     ks = [k for k in weights if k in allow]
     ws = [weights[k] for k in ks]
@@ -70,7 +70,7 @@ def gen_history(rng, n_steps: int, allow: set):
     return kinds
 
 
-ALL_STEPS = {"edit_body", "edit_body_middle", "edit_bullet", "change_kind", "change_priority", "add_note", "add_note_zid", "delete_note", "retitle_section", "edit_header", "move_note", "add_page", "delete_page", "rename_page", "advance_day", "reindex", "reindex_paths"}
+ALL_STEPS = {"break_page", "repair_page", "edit_body", "edit_body_middle", "edit_bullet", "change_kind", "change_priority", "add_note", "add_note_zid", "delete_note", "retitle_section", "edit_header", "move_note", "add_page", "delete_page", "rename_page", "advance_day", "reindex", "reindex_paths"}
 
 
 class Runner:
@@ -86,6 +86,8 @@ class Runner:
         self.failed = None
         self.n_pages = n_pages
         self.page_counter = 0
+        self.broken: dict = {}  # rel -> last good text (page currently has a syntax error)
+        self.refusals = 0
 
     # ---------------------------------------------------------------- setup
     def setup(self) -> bool:
@@ -108,9 +110,40 @@ class Runner:
     def pages(self):
         return hg.zo_files(self.root)
 
+    def good_pages(self):
+        return [p for p in self.pages() if rel(self.root, p) not in self.broken]
+
     def do(self, kind: str) -> None:
         rng = self.rng
-        pages = self.pages()
+        pages = self.good_pages()
+        if kind == "break_page":
+            cands = [p for p in pages if hg.scan(p.read_text())[1]]
+            if not cands or len(self.broken) >= 2:
+                return
+            p = rng.choice(cands)
+            text = p.read_text()
+            lines, items = hg.scan(text)
+            _s, e = rng.choice(items)
+            lines.insert(e, rng.choice(["free text without an item prefix", "oops this line lost its dash", "TODO fix me (no prefix)"]))
+            new = "\n".join(lines)
+            p.write_text(new)
+            c = harness.compile_path(self.root, Path(rel(self.root, p)))
+            if c.exc is None and c.parser_errors and c.page.has_errors:
+                self.broken[rel(self.root, p)] = text
+                self.log.append(Step(kind, page=rel(self.root, p)).to_json())
+            else:
+                p.write_text(text)
+            return
+        if kind == "repair_page":
+            if not self.broken:
+                return
+            r = rng.choice(sorted(self.broken))
+            good = self.broken.pop(r)
+            if rng.random() < 0.5:
+                good = hg.op_edit_body(good, self.ctx, self.day) or good
+            (self.root / r).write_text(good)
+            self.log.append(Step(kind, page=r).to_json())
+            return
         if kind in hg.PAGE_OPS:
             if not pages:
                 return
@@ -163,10 +196,11 @@ class Runner:
         elif kind == "reindex":
             self.reindex(None)
         elif kind == "reindex_paths":
-            if not pages:
+            allp = self.pages()
+            if not allp:
                 return
-            k = rng.randint(1, min(3, len(pages)))
-            self.reindex(rng.sample(pages, k))
+            k = rng.randint(1, min(3, len(allp)))
+            self.reindex(rng.sample(allp, k))
 
     def reindex(self, paths) -> ReindexObs:
         o = ReindexObs()
@@ -196,8 +230,13 @@ class Runner:
         o.dump_problems = d.problems
         self.reindex_obs.append(o)
         self.log.append(Step("reindex", paths=o.paths, day=self.day, rc=res.rc).to_json())
+        considered_rels = set(o.files_before) if paths is None else set(o.paths)
+        o.refusal_expected = bool(considered_rels & set(self.broken))
         if res.rc != 0:
-            self.failed = f"db reindex failed rc={res.rc}: {res.err[-400:]}"
+            if o.refusal_expected:
+                self.refusals += 1  # a page with a syntax error is refused: legitimate, the history goes on
+            else:
+                self.failed = f"db reindex failed rc={res.rc}: {res.err[-400:]}"
         return o
 
     def run(self, kinds: list) -> None:
@@ -205,6 +244,8 @@ class Runner:
             if self.failed:
                 return
             self.do(k)
+        while self.broken and not self.failed:
+            self.do("repair_page")
         if not self.failed:
             self.reindex(None)
 
